@@ -679,6 +679,12 @@ fn maybe_runtype_any_of_discriminated(
                             })
                             .collect::<BTreeSet<_>>();
 
+                        if discriminator_strings.len() < 2 {
+                            // one value spelled in two ways (a literal and an alias of it) tells the
+                            // members apart syntactically only; dispatching on it would recurse forever
+                            continue;
+                        }
+
                         return Some(runtype_any_of_discriminated(
                             original_runtype,
                             flat_values,
